@@ -137,6 +137,63 @@ def rest_smt2(axioms, ob):
     return s.to_smt2()
 
 
+_CONST_CACHE = {}
+
+
+def consts_of(e):
+    """names of the 0-ary uninterpreted symbols (program variables / skolems) occurring in e"""
+    key = e.get_id()
+    if key in _CONST_CACHE and _CONST_CACHE[key][0].eq(e):
+        return _CONST_CACHE[key][1]
+    out, seen, stack = set(), set(), [e]
+    while stack:
+        x = stack.pop()
+        if x.get_id() in seen:
+            continue
+        seen.add(x.get_id())
+        if z3.is_quantifier(x):
+            stack.append(x.body())
+        elif z3.is_app(x):
+            if x.num_args() == 0 and x.decl().kind() == z3.Z3_OP_UNINTERPRETED:
+                out.add(x.decl().name())
+            stack.extend(x.children())
+    _CONST_CACHE[key] = (e, out)
+    return out
+
+
+def near_smt2(axioms, ob, depth):
+    """The goal with only the hypotheses within `depth` hops of it (two formulas are adjacent when they share a program variable), plus the
+    axioms relevant to that part.  Proving the goal from FEWER hypotheses is sound; a `sat`/`unknown` answer of such a query means nothing."""
+    cur = set(consts_of(ob.goal))
+    kept = []
+    rest = list(enumerate(ob.hyps))
+    for _ in range(depth):
+        nxt, add = [], set()
+        for i, h in rest:
+            c = consts_of(h)
+            if c & cur:
+                kept.append((i, h))
+                add |= c
+            else:
+                nxt.append((i, h))
+        rest = nxt
+        cur |= add
+    if not rest:
+        return None          # nothing was left out: same as the full query
+    kept.sort(key=lambda p: p[0])
+
+    class _O:
+        hyps, goal, expect_sat = [h for _, h in kept], ob.goal, False
+
+    s = z3.Solver()
+    for a in relevant_axioms(axioms, _O):
+        s.add(a)
+    for h in _O.hyps:
+        s.add(h)
+    s.add(z3.Not(ob.goal))
+    return s.to_smt2()
+
+
 def to_smt2_full(axioms, ob):
     s = z3.Solver()
     for a in relevant_axioms(axioms, ob):
@@ -188,12 +245,19 @@ def _solve_cli(cmd, text, timeout_s):
 
 
 def _work(job):
-    idx, text, timeout_ms, expect_sat, rest_text, full_text = job
+    idx, text, timeout_ms, expect_sat, rest_text, full_text = job[:6]
+    near = job[6] if len(job) > 6 else ()
     t0 = time.time()
     # portfolio: z3 with a short budget (most obligations take < 0.5 s), then cvc5 (decides many of z3's unknowns at once),
     # then z3 with the full budget, then z3 4.8
     verdict, info = _solve_z3(text, min(2500, timeout_ms), True)
     solver = "z3-5.1(api)"
+    if verdict in ("unknown", "error") and not expect_sat:
+        # the goal from its near neighbourhood only (hypotheses within 1, 2, 3 hops): fewer quantified facts for the solver to chase
+        for d, ntext in near:
+            nv, _ = _solve_z3(ntext, min(4000, timeout_ms), False)
+            if nv == "unsat":
+                return idx, "unsat", f"(proved from the hypotheses within {d} hop(s) of the goal)", solver, time.time() - t0
     if verdict in ("unknown", "error") and not expect_sat:
         v2, i2 = _solve_cli(["/usr/bin/cvc5", "--strings-exp", f"--tlimit={timeout_ms}"], "(set-logic ALL)\n" + text, timeout_ms / 1000)
         if v2 == "unsat":
@@ -239,8 +303,15 @@ def discharge(axioms, obls, timeout_ms=10000, procs=None):
             results[i] = dict(id=ob.id, kind=ob.kind, verdict="refuted", solver="simplifier", seconds=0.0, note=ob.note, line=ob.line, model="(goal is literally False on an unconditional path)")
             continue
         rest = rest_smt2(axioms, ob)
+        near = []
+        if not ob.expect_sat and len(ob.hyps) > 8:
+            for d in (1, 2, 3):
+                nt = near_smt2(axioms, ob, d)
+                if nt is None:
+                    break
+                near.append((d, nt))
         jobs.append((i, to_smt2(axioms, ob), min(timeout_ms, 3000) if ob.expect_sat else timeout_ms, ob.expect_sat, rest,
-                     to_smt2_full(axioms, ob) if rest is not None else None))
+                     to_smt2_full(axioms, ob) if rest is not None else None, tuple(near)))
     if jobs:
         procs = procs or min(16, max(1, len(jobs)))
         if len(jobs) <= 2 or procs == 1:
